@@ -1,5 +1,5 @@
-"""(Repaired in /repo: CFGNormalization now refuses — CompilerPanic "cannot normalize: target ... of a djmp has another
-predecessor"; this replay exits 0 when every level ends in that refusal, 1 when the program compiles again.)
+"""(OPEN known finding cfgpass:CFGNormalization; exits 1 while the value is wrong.  A fail-closed repair was tried and
+withdrawn: tests/unit/compiler/venom/test_multi_entry_block.py needs djmp edges without a data segment to be split.)
 Replay: CFGNormalization splits the edge of a `djmp` whose target has several predecessors but leaves the jump table
 (data segment) pointing at the old label: the dynamic jump skips the forwarding block, the phi of the target reads the
 wrong value.  Expected (IR semantics): calldata (x=0, a=1, b=9) -> returns (9, 0); observed at every level: (10, 0).
